@@ -10,3 +10,7 @@ import TeosVerif.Props.C11
 #print axioms Teos.C11.register_never_aborts
 #print axioms Teos.C11.refused_request_never_aborts
 #print axioms Teos.C11.aborted_is_final
+#print axioms Teos.C11.tower_never_aborts
+#print axioms Teos.C11.data_consistent_forever
+#print axioms Teos.C11.step_keeps_invariant
+#print axioms Teos.C11.fresh_database_consistent
